@@ -75,6 +75,47 @@ if getattr(_lt, "find_template_keys", None) is _orig_ftk:
 
 # ------------------------------------------------------------------ observation state
 
+# ------------------------------------------------------------------ option reads
+# every dotted lookup the library makes (`get_dotted_key` / `dotted_key_exists`, also from inside confectioner's
+# `resolve`) is recorded: the model's `read` events are compared with it (facet "reads")
+READ_LOG = []
+_orig_gdk = _ct.get_dotted_key
+_orig_dke = _ct.dotted_key_exists
+
+
+_READ_DEPTH = [0]      # confectioner walks a dotted key by calling itself on the remainder: outermost calls only
+
+
+def _rec_gdk(key, o, *a, **k):
+    if _READ_DEPTH[0] == 0:
+        READ_LOG.append(key)
+    _READ_DEPTH[0] += 1
+    try:
+        return _orig_gdk(key, o, *a, **k)
+    finally:
+        _READ_DEPTH[0] -= 1
+
+
+def _rec_dke(key, o, *a, **k):
+    if _READ_DEPTH[0] == 0:
+        READ_LOG.append(key)
+    _READ_DEPTH[0] += 1
+    try:
+        return _orig_dke(key, o, *a, **k)
+    finally:
+        _READ_DEPTH[0] -= 1
+
+
+_ct.get_dotted_key = _rec_gdk
+_ct.dotted_key_exists = _rec_dke
+import sys as _sys
+for _mn, _m in list(_sys.modules.items()):
+    if _mn.startswith("labrea") and _m is not None:
+        if getattr(_m, "get_dotted_key", None) is _orig_gdk:
+            _m.get_dotted_key = _rec_gdk
+        if getattr(_m, "dotted_key_exists", None) is _orig_dke:
+            _m.dotted_key_exists = _rec_dke
+
 CACHE_LOG = []
 LOG_LOG = []
 REQ_LOG = []
@@ -781,7 +822,7 @@ def run_eval_op(g, op):
     obj = g.node(op["n"])
     o = dec(op["o"])
     before = [snapshot(d) for d in g.inputs] + [snapshot(o)]
-    del CALL_LOG[:], CACHE_LOG[:], LOG_LOG[:], REQ_LOG[:], TCHK_LOG[:]
+    del CALL_LOG[:], CACHE_LOG[:], LOG_LOG[:], REQ_LOG[:], TCHK_LOG[:], READ_LOG[:]
     subst = None
     if op.get("subst"):
         subst = (g.node(op["subst"][0]), dec(op["subst"][1]))
@@ -842,7 +883,8 @@ def run_eval_op(g, op):
     after = [snapshot(d) for d in g.inputs] + [snapshot(o)]
     calls = [[nm, enc(list(a)), [[k, enc(v)] for k, v in sorted(kw.items())]] for nm, a, kw in CALL_LOG]
     return {"r": r, "calls": calls, "cache": list(CACHE_LOG), "log": list(LOG_LOG),
-            "req": list(REQ_LOG), "mut": [i for i, (a, b) in enumerate(zip(before, after)) if a != b]}
+            "req": list(REQ_LOG), "mut": [i for i, (a, b) in enumerate(zip(before, after)) if a != b],
+            "reads": sorted(set(READ_LOG))}
 
 
 def main():
